@@ -116,11 +116,14 @@ def gen(stratum, rng, tier):
         n = rng.randint(170, 220)
         clauses, model = cnf.planted(rng, n, n, ratio=rng.uniform(4.7, 5.2))
         known = True
-        calls = [{}, {"luby_factor": rng.choice([20, 30, 50])}]
-        budget = 300_000_000  # observed maximum 21M; this stratum is not the hang detector
+        # planted instances near the threshold can be genuinely hard: the solver's own conflict budget bounds the
+        # work (MAX_ITER with an exhausted budget is a legitimate answer), so the step budget stays an anomaly detector
+        mc = 15_000
+        calls = [{"max_conflicts": mc}, {"luby_factor": rng.choice([20, 30, 50]), "max_conflicts": mc}]
+        budget = 400_000_000  # ~3000 steps per conflict observed => 30 000 conflicts need < 100M
         shuffled = list(clauses)
         return {"clauses": shuffled, "calls": calls, "known": known, "budget": budget, "model": model,
-                "reexamine": [{"luby_factor": lf} for lf in (10, 25, 40, 70)]}
+                "reexamine": [{"luby_factor": lf, "max_conflicts": mc} for lf in (10, 25, 40, 70)]}
     elif stratum == "enum":
         n = rng.randint(2, 9)
         clauses = [cnf.rand_clause(rng, n, rng.choice([2, 3, 3, 4])) for _ in range(rng.randint(1, int(n * 2.2) + 1))]
@@ -187,9 +190,14 @@ def gen(stratum, rng, tier):
         budget = BUDGET_BIG
     elif stratum == "enum-reduce":
         # thousands of models: the blocking clauses alone push the learned DB over the reduce threshold
-        n = rng.randint(12, 15)
-        clauses = [cnf.rand_clause(rng, n, rng.choice([2, 3, 3, 4])) for _ in range(rng.randint(1, 9))]
-        calls = [{"solution_limit": 10**6, "luby_factor": rng.choice([1, 1, 2, 3, 5])}]
+        # duplicates after a clause-database reduction need the search to wander back to an unblocked model: in
+        # practice >= ~4000 models; the time per case grows about quadratically with the model count
+        n = rng.choice([12, 13, 14, 14]) if tier == "quick" else rng.randint(12, 15)
+        kmin = 4 if n >= 14 and tier == "quick" else 2
+        clauses = [cnf.rand_clause(rng, n, rng.choice([2, 3, 3, 4])) for _ in range(rng.randint(kmin, 9))]
+        # a correct enumeration can never return more than 2**n entries: with this limit a solver that re-finds
+        # models stops (and is convicted of duplicates) instead of running to the step budget
+        calls = [{"solution_limit": 2 ** n + 1, "luby_factor": rng.choice([1, 1, 2, 3, 5])}]
         budget = BUDGET_BIG
     else:
         raise ValueError(stratum)
@@ -309,7 +317,7 @@ def run(case, obs, judge):
                 # wrong-SAT is also a C02 matter ("never reports a model for an unsatisfiable formula")
         if kw.get("assumptions"):
             obs.nontrivial = True
-    if anomalies and not obs.violations and case["budget"] < BUDGET_BIG:
+    if anomalies and not obs.violations and case["budget"] <= BUDGET_DEFAULT:
         # an internal anomaly gets every chance to surface at the API: full enumeration under several restart schedules
         for lf in (1, 2, 100):
             _mon.drain()
